@@ -472,7 +472,9 @@ func FuzzHTTP(f *testing.F) {
 				if ps := server.VerifPanics(); len(ps) > 0 {
 					t.Fatalf("C12: handler panicked on %s %s: %s", m, path, ps[0].Value)
 				}
-				t.Fatalf("C12: %s %s got no response: %v", m, path, err)
+				if len(body) == 0 { // with a body, a reset caused by net/http closing early is not the server's doing (see world.HTTPOnce)
+					t.Fatalf("C12: %s %s got no response: %v", m, path, err)
+				}
 			}
 		}
 		if ps := server.VerifPanics(); len(ps) > 0 {
